@@ -1,0 +1,18 @@
+//go:build verif
+
+package logging
+
+import (
+	"io"
+
+	"github.com/sirupsen/logrus"
+)
+
+// VerifSilence installs a logger that discards everything, so that harness runs neither print
+// to stdout (the uninitialised default) nor create log files.
+func VerifSilence() {
+	l := logrus.New()
+	l.SetOutput(io.Discard)
+	l.SetLevel(logrus.PanicLevel)
+	logObj = &logger{iWriter: l, fWriter: l}
+}
